@@ -407,3 +407,24 @@ Definition pc_tag (p : pc) : Z :=
   | PWaitWake _ _ => 19 | PWaitThread _ _ => 20 | PWaitPerf _ _ _ => 21 | PWaitG _ => 22 | PWaitOut r => if r =? 0 then 23 else 24
   | PNotifyPerf => 25 | PNotifyG => 26
   end.
+
+(* coverage: the transitions (program-point tag pairs) along the first accepting run of a recorded trace, latent steps
+   included.  Evaluated by the correspondence to report which transitions of tstep real traces exercised. *)
+Definition tr_code (p p' : pc) : Z := pc_tag p * 100 + pc_tag p'.
+Definition succs_h (self : Z) (ph : pc * list Z) (es : list event) : list (pc * list Z) :=
+  flat_map (fun e => match tstep self (fst ph) e with
+                     | Some p' => [(p', tr_code (fst ph) p' :: snd ph)] | None => [] end) es.
+Fixpoint closure_h (self : Z) (n : nat) (phs : list (pc * list Z)) : list (pc * list Z) :=
+  match n with
+  | O => phs
+  | S n' => phs ++ closure_h self n' (flat_map (fun ph => succs_h self ph (latents self (fst ph))) phs)
+  end.
+Definition vstep_h (self : Z) (phs : list (pc * list Z)) (e : event) : list (pc * list Z) :=
+  flat_map (fun ph => succs_h self ph [e]) (closure_h self LAT_DEPTH phs).
+Fixpoint vrun_h (self : Z) (phs : list (pc * list Z)) (tr : list event) : list (pc * list Z) :=
+  match tr with [] => phs | e :: tr' => vrun_h self (vstep_h self phs e) tr' end.
+Definition conform_cov (self : Z) (tr : list event) : list Z :=
+  match filter (fun ph => pc_idle (fst ph)) (closure_h self LAT_DEPTH (vrun_h self [(PIdle, [])] tr)) with
+  | ph :: _ => snd ph
+  | [] => []
+  end.
